@@ -8,6 +8,7 @@ import (
 	"math"
 	"math/big"
 	"strconv"
+	"strings"
 
 	"github.com/hneemann/parser2"
 	"github.com/hneemann/parser2/example"
@@ -291,6 +292,31 @@ func checkBoolLet(ctx *bex.Ctx, inst boolInst, v, body *gx.Node, prefix, src str
 	if got != want {
 		ctx.Violate("wrong truth table", map[string]any{"kind": "bool", "inst": inst.name, "src": prefix + src},
 			fmt.Sprintf("truth table %08b", want), fmt.Sprintf("%08b", got), "")
+		return
+	}
+	// the same 8 assignments through the host entry point Func.Eval, every assignment a row of ONE table
+	// (a slice with spare capacity, as a host iterating over a table of inputs passes it): evaluations
+	// use the stack behind their arguments as scratch space, which must never be the caller's memory
+	var tab [24]bool
+	for m := 0; m < 8; m++ {
+		tab[m*3], tab[m*3+1], tab[m*3+2] = m&1 != 0, m&2 != 0, m&4 != 0
+	}
+	pristine := tab
+	var got2 uint8
+	for m := 0; m < 8; m++ {
+		r, err := f.Eval(tab[m*3 : m*3+3]...)
+		if err != nil {
+			ctx.Violate("evaluation error", map[string]any{"kind": "bool", "inst": inst.name, "src": prefix + src, "assign": m, "via": "Func.Eval on a row of a table"}, "a value", "error: "+err.Error(), "")
+			return
+		}
+		if r {
+			got2 |= 1 << m
+		}
+	}
+	if got2 != want || tab != pristine {
+		ctx.Violate("wrong truth table when the assignments are rows of one table passed to Func.Eval (an evaluation wrote behind its arguments into the caller's slice)",
+			map[string]any{"kind": "bool", "inst": inst.name, "src": prefix + src, "via": "Func.Eval on rows of a table"},
+			fmt.Sprintf("truth table %08b, table unchanged", want), fmt.Sprintf("%08b, table unchanged: %v", got2, tab == pristine), "")
 	}
 }
 
@@ -496,6 +522,28 @@ func checkFloat(ctx *bex.Ctx, inst floatInst, n *gx.Node, src string) {
 	if nontrivial {
 		ctx.Nontrivial("f|" + src)
 	}
+	if !strings.Contains(src, "(") {
+		return // only calls push at run time in the float configuration
+	}
+	var tab [12]float64
+	for i, as := range floatAssign {
+		tab[2*i], tab[2*i+1] = as[0], as[1]
+	}
+	pristine := tab
+	for ai, as := range floatAssign {
+		env := map[string]float64{"a": as[0], "b": as[1]}
+		want, exact := evalFloat(n, env)
+		got, err := f.Eval(tab[2*ai : 2*ai+2]...)
+		if exact == nil {
+			continue
+		}
+		if err != nil || got != want || tab != pristine {
+			ctx.Violate("wrong float value when the assignments are rows of one table passed to Func.Eval (an evaluation wrote behind its arguments into the caller's slice)",
+				map[string]any{"kind": "float", "inst": inst.name, "src": src, "a": as[0], "b": as[1], "via": "Func.Eval on rows of a table"},
+				fmt.Sprintf("%v, table unchanged", want), fmt.Sprintf("%v (err %v), table unchanged: %v", got, err, tab == pristine), "")
+			return
+		}
+	}
 }
 
 func floatLeaves() []*gx.Node {
@@ -697,7 +745,7 @@ func main() {
 	bex.Main(&bex.Check{
 		ID:    "C19",
 		Level: "exploration",
-		Rule: "every expression tree up to the node bound is rendered (minimal/blank/full parentheses, comfort-mode juxtaposition) and generated on the package's own example.boolParser / example.minimal (reached through an overlay-added accessor) and on replicas with permuted commutative flags, optimizer on and off; each is evaluated on every assignment and compared with direct evaluation of the tree by the operators' Go definitions (floats: exactness of every step checked with big.Rat, inexact assignments excluded). distinct_nontrivial = distinct source texts whose reference result is not constant over the assignments (bool) / takes a value other than 0 and 1 (float)",
+		Rule:  "every expression tree up to the node bound is rendered (minimal/blank/full parentheses, comfort-mode juxtaposition) and generated on the package's own example.boolParser / example.minimal (reached through an overlay-added accessor) and on replicas with permuted commutative flags, optimizer on and off; each is evaluated on every assignment and compared with direct evaluation of the tree by the operators' Go definitions (floats: exactness of every step checked with big.Rat, inexact assignments excluded). distinct_nontrivial = distinct source texts whose reference result is not constant over the assignments (bool) / takes a value other than 0 and 1 (float)",
 		Assumptions: []string{"the renderer's grouping rules are the ones stated in C03/C19 (validated independently by C03's reference parser)",
 			"float operands restricted to the exact grid: division by 2 or 0.5 only, exponent 2 only"},
 		QuickBudget: 55e9, ThoroughBudget: 25 * 60e9,
